@@ -52,7 +52,21 @@ pub fn run(_args: &[String], out: &mut dyn Write) -> i32 {
                 Err(_) => return ("()".to_string(), "()".to_string()),
             };
             let mut rs = Vec::new();
-            for (s, e) in &ranges {
+            // the ledger is queried many times in a row, as a long-lived library user would: converted queries over
+            // the same range (results ignored) are interleaved, so that state kept between queries cannot hide
+            let targets: Vec<_> = ["USD", "EUR", "JPY", "CHF", "OKN"].iter().filter_map(|c| ctx.commodity(c)).collect();
+            for (k, (s, e)) in ranges.iter().enumerate() {
+                if let Some(target) = targets.get(k % targets.len().max(1)) {
+                    let strategy = if k % 2 == 0 {
+                        query::ConversionStrategy::Historical
+                    } else {
+                        query::ConversionStrategy::UpToDate { now: chrono::NaiveDate::from_ymd_opt(2025, 1, 1).unwrap() }
+                    };
+                    let _ = ledger.balance(&ctx, &query::BalanceQuery {
+                        conversion: Some(query::Conversion { strategy, target: *target }),
+                        date_range: query::DateRange { start: parse_date(s), end: parse_date(e) },
+                    });
+                }
                 let q = query::BalanceQuery {
                     conversion: None,
                     date_range: query::DateRange { start: parse_date(s), end: parse_date(e) },
